@@ -84,7 +84,10 @@ def field_grid(repo, rep, tier):
                 except NotEvaluable as e:
                     rep.inconcl("R-FIELDS", site, "term not executable: %s" % e)
                     return
-                except (TypeError, ValueError, ZeroDivisionError) as e:
+                except (TypeError, ValueError, IndexError, KeyError) as e:     # the evaluator's own limits are not evidence against the code
+                    rep.inconcl("R-FIELDS", site, "term not executable: %s: %s" % (type(e).__name__, e))
+                    return
+                except ZeroDivisionError as e:
                     bad.setdefault("error", []).append("%s: %s at JDE %s" % (type(e).__name__, e, float(j)))
                     continue
                 n += 1
